@@ -53,8 +53,8 @@ Definition d_kt : db := set_value 0 empty_db (bs "k") (VStr (bs "v")) (Some 1005
 Definition both (now : Z) (d : db) (l : list bytes) : (frame * db) * option (frame * db) :=
   (exec_run now d (bulks l) None, match l with nm :: _ => exec_db now d (upper nm) (bulks l) None | [] => None end).
 
-Example c12_parity_set_nx_xx_refuted :
-  both 0 d_k [bs "SET"; bs "k"; bs "w"; bs "NX"; bs "XX"] = ((r_err, d_k), Some (r_nil, d_k)).
+Example c12_parity_set_nx_xx :            (* since f4c6282 both paths refuse NX together with XX *)
+  both 0 d_k [bs "SET"; bs "k"; bs "w"; bs "NX"; bs "XX"] = ((r_err, d_k), Some (r_err, d_k)).
 Proof. vm_compute. reflexivity. Qed.
 Example c12_parity_set_get_refuted :     (* SET k w GET: a syntax error when sent directly *)
   fst (fst (both 0 d_k [bs "SET"; bs "k"; bs "w"; bs "GET"])) = FBulk (bs "v") /\
